@@ -158,10 +158,15 @@ def run(chk: Check):
                                                             for _ in range(rng.randint(1, 3))] + [("BestBatchSampler", 2, None)]
             n = rng.randint(4, 7)
             chk.count("loss:infmix")
+        if i % 4 == 2:
+            # a model that uses its theta argument as scratch space: in-process (n_jobs=1) it gets the calibrator's own array, in workers a pickled copy
+            cfg["model"] = "mutating"
+            cfg["ensemble"] = 1 if i % 8 == 2 else cfg["ensemble"]
+            chk.count("model:writes-into-theta")
         base, rets, _ = twin.run_segments(cfg, [(n, "end")], use_folder=False)
         other = copy.deepcopy(cfg)
         changed = []
-        if rng.random() < 0.6:
+        if rng.random() < 0.6 or cfg.get("model") == "mutating":
             other["n_jobs"] = rng.choice([2, 4]); changed.append("n_jobs")
         if rng.random() < 0.5:
             other["verbose"] = True; changed.append("verbose")
